@@ -257,8 +257,8 @@ def streams_phase(ctx, part):
     quick = ctx.tier == "quick"
     d = ctx.specdir()
     total = 0
-    for ci, (m, a, M) in enumerate([("euclidean", "simple", 2), ("cosine", "heuristic", 3)] if quick else
-                                   [("euclidean", "simple", 2), ("cosine", "heuristic", 3), ("manhattan", "simple", 16)]):
+    for ci, (m, a, M) in enumerate([("euclidean", "simple", 2), ("cosine", "heuristic", 3), ("manhattan", "simple", 1)] if quick else
+                                   [("euclidean", "simple", 2), ("cosine", "heuristic", 3), ("manhattan", "simple", 16), ("manhattan", "simple", 1), ("euclidean", "heuristic", 1)]):
         cfgp = ctx.path("scfg-%d.json" % ci)
         json.dump({"index": {"metric": m, "algo": a, "M": M, "MMax": M, "MMax0": 2 * M}, "np": 12, "dim": 5,
                    "nids": 9, "maxlvl": 2, "ids": (ctx.seed + ci) % 4}, open(cfgp, "w"))
